@@ -24,6 +24,9 @@ func pickGrammar(filter func(g *Grammar) bool) *Grammar {
 		return Systematic(rt.Param("seed", 0), rt.Choose("grammar", k))
 	}
 	all := Curated()
+	if rt.Param("trimshapes", 0) == 1 {
+		all = TrimShapes()
+	}
 	var sel []*Grammar
 	for _, g := range all {
 		if filter == nil || filter(g) {
